@@ -98,11 +98,9 @@ func GetKeyFromPassword(passwd string, cname types.PrincipalName, realm string, 
 			if len(eti) < 1 {
 				return key, et, fmt.Errorf("PA-ETYPE-INFO contains no entries")
 			}
-			if etypeID != eti[0].EType {
-				et, err = GetEtype(eti[0].EType)
-				if err != nil {
-					return key, et, fmt.Errorf("error getting encryption type: %v", err)
-				}
+			et, err = GetEtype(eti[0].EType)
+			if err != nil {
+				return key, et, fmt.Errorf("error getting encryption type: %v", err)
 			}
 			salt = string(eti[0].Salt)
 		case patype.PA_ETYPE_INFO2:
@@ -118,11 +116,9 @@ func GetKeyFromPassword(passwd string, cname types.PrincipalName, realm string, 
 			if len(et2) < 1 {
 				return key, et, fmt.Errorf("PA-ETYPE-INFO2 contains no entries")
 			}
-			if etypeID != et2[0].EType {
-				et, err = GetEtype(et2[0].EType)
-				if err != nil {
-					return key, et, fmt.Errorf("error getting encryption type: %v", err)
-				}
+			et, err = GetEtype(et2[0].EType)
+			if err != nil {
+				return key, et, fmt.Errorf("error getting encryption type: %v", err)
 			}
 			if len(et2[0].S2KParams) == 4 {
 				sk2p = hex.EncodeToString(et2[0].S2KParams)
